@@ -180,7 +180,8 @@ func stability(f1 string, format func(string) (string, error)) stab {
 	st.unstable = true
 	st.trace = append(st.trace, f3)
 	// classify: only white space moves and a fixpoint is reached within a few more passes
-	layoutOnly := stripSpace(f1) == stripSpace(f2) && stripSpace(f2) == stripSpace(f3)
+	// (the one further pass the property allows may change anything, e.g. drop a comment)
+	layoutOnly := stripSpace(f2) == stripSpace(f3)
 	cur := f3
 	fix := false
 	for i := 0; i < 12 && layoutOnly; i++ {
@@ -232,7 +233,34 @@ var assumptionsPipeline = []string{
 	"the re-rendered script needs no vars: pipeline/tick inlines values",
 }
 
-func runPipeline(c ScriptCase, cc *kit.Case) {
+func runPipelineWith(r *kit.Rec) func(c ScriptCase, cc *kit.Case) {
+	return func(c ScriptCase, cc *kit.Case) { runPipeline(r, c, cc) }
+}
+
+// anyNode reports whether some node of the pipeline satisfies f.
+func anyNode(p *pipeline.Pipeline, f func(n pipeline.Node) bool) bool {
+	found := false
+	_ = p.Walk(func(n pipeline.Node) error {
+		if f(n) {
+			found = true
+		}
+		return nil
+	})
+	return found
+}
+
+func parentIs(n pipeline.Node, descs ...string) bool {
+	for _, q := range n.Parents() {
+		for _, d := range descs {
+			if q.Desc() == d {
+				return true
+			}
+		}
+	}
+	return false
+}
+
+func runPipeline(r *kit.Rec, c ScriptCase, cc *kit.Case) {
 	p, err := create(c.Script, c.Edge, c.Vars)
 	if err != nil {
 		cc.Label("rejected")
@@ -250,14 +278,24 @@ func runPipeline(c ScriptCase, cc *kit.Case) {
 	if fp.Nodes >= 3 && c.Mixed {
 		cc.NonTrivial()
 	}
-	pipelineJSONLaw(c, p, fp, cc)
+	if c.Law != "tick" {
+		pipelineJSONLaw(r, c, p, fp, cc)
+	}
 	if cc.Failed() {
 		return
 	}
-	pipelineTickLaw(c, p, fp, cc)
+	if c.Law != "json" {
+		pipelineTickLaw(r, c, p, fp, cc)
+	}
 }
 
-func pipelineJSONLaw(c ScriptCase, p *pipeline.Pipeline, fp Fingerprint, cc *kit.Case) {
+func pipelineJSONLaw(r *kit.Rec, c ScriptCase, p *pipeline.Pipeline, fp Fingerprint, cc *kit.Case) {
+	w := c.Witness
+	if skip(r, w, anyNode(p, func(n pipeline.Node) bool {
+		return (n.Desc() == "where" || n.Desc() == "groupby") && parentIs(n, "from", "query")
+	}), "K8 pipeline JSON: |where() or |groupBy() node directly under from()/query() (Unmarshal: parent has no where/groupBy clause)") {
+		return
+	}
 	b, err := json.Marshal(p)
 	if err != nil {
 		cc.Fail("pipeline-json/marshal-error", "json.Marshal(pipeline): %v\nscript:\n%s", err, c.Script)
@@ -270,7 +308,7 @@ func pipelineJSONLaw(c ScriptCase, p *pipeline.Pipeline, fp Fingerprint, cc *kit
 	}
 	fq := fingerprint(q)
 	if fq.Canon != fp.Canon {
-		cc.Fail("pipeline-json/changed", "pipeline JSON round trip changed the pipeline; %s\nscript:\n%s", firstDiff(fp.Canon, fq.Canon), c.Script)
+		cc.Fail("pipeline-json/changed", "pipeline JSON round trip changed the pipeline; %s\nscript:\n%s", canonDiff(fp.Canon, fq.Canon), c.Script)
 	}
 	cc.Label("json-roundtrip-checked")
 }
@@ -297,7 +335,9 @@ func buildTick(p *pipeline.Pipeline) (s string, err error) {
 	return ast.Format(&a.Program), nil
 }
 
-func pipelineTickLaw(c ScriptCase, p *pipeline.Pipeline, fp Fingerprint, cc *kit.Case) {
+func pipelineTickLaw(r *kit.Rec, c ScriptCase, p *pipeline.Pipeline, fp Fingerprint, cc *kit.Case) {
+	w := c.Witness
+	_ = w
 	s2, err := buildTick(p)
 	if err != nil {
 		cc.Fail("pipeline-tick/build-error", "pipeline/tick AST.Build: %v\nscript:\n%s", err, c.Script)
@@ -310,7 +350,7 @@ func pipelineTickLaw(c ScriptCase, p *pipeline.Pipeline, fp Fingerprint, cc *kit
 	}
 	f2 := fingerprint(p2)
 	if f2.Canon != fp.Canon {
-		cc.Fail("pipeline-tick/changed", "pipeline -> TICKscript -> pipeline changed the pipeline; %s\nscript:\n%s\nrendered:\n%s", firstDiff(fp.Canon, f2.Canon), c.Script, s2)
+		cc.Fail("pipeline-tick/changed", "pipeline -> TICKscript -> pipeline changed the pipeline; %s\nscript:\n%s\nrendered:\n%s", canonDiff(fp.Canon, f2.Canon), c.Script, s2)
 	}
 	cc.Label("tick-roundtrip-checked")
 }
@@ -318,12 +358,12 @@ func pipelineTickLaw(c ScriptCase, p *pipeline.Pipeline, fp Fingerprint, cc *kit
 
 func TestPipeline(t *testing.T) {
 	r := kit.NewRec("C13", "Pipeline", rulePipeline, assumptionsPipeline...)
-	kit.Check(t, r, genScriptWith(r), runPipeline)
+	kit.Check(t, r, genPipelineWith(r), runPipelineWith(r))
 }
 
 func TestReplayPipeline(t *testing.T) {
 	r := kit.NewRec("C13", "Pipeline", rulePipeline, assumptionsPipeline...)
-	kit.Replay(t, r, runPipeline)
+	kit.Replay(t, r, runPipelineWith(r))
 }
 
 // ---------------------------------------------------------------- Lambda unit
@@ -429,8 +469,8 @@ func lambdaLaws(r *kit.Rec, name string, c LambdaCase, l *ast.LambdaNode, cc *ki
 		l   *ast.LambdaNode
 	}{{"", l}}
 	// JSON round trip
-	if !skip(r, c.Witness, exprHas(c.E, isCall), "K1 lambda JSON: the lambda contains a function call (function name not serialised)") &&
-		!skip(r, c.Witness, exprHas(c.E, isBigInt), "K4 lambda JSON: integer literal beyond 2^53 (decoded through float64)") {
+	if !skip(r, c.Witness, exprHas(c.E, isCall), classK1) &&
+		!skip(r, c.Witness, exprHas(c.E, isBigInt), classK4) {
 		l2, b, err := jsonRoundTrip(l)
 		if err != nil {
 			cc.Fail("lambda-json/error", "[%s] JSON round trip of lambda %s fails: %v\njson: %s", name, want, err, clip(string(b), 2000))
